@@ -286,9 +286,15 @@ def _explore(prefix):
     while stack:
         hist = stack.pop()
         h.reset()
-        for ev in hist[:-1]:
-            h.apply(ev)
-        h.apply(hist[-1])
+        try:
+            for ev in hist[:-1]:
+                h.apply(ev)
+            h.apply(hist[-1])
+        except Exception as e:  # noqa: BLE001 - a history operation itself raised
+            n_trans += 1
+            viols.append({"key": f"operation-raises:{h.backend}:{hist[-1][0]}:{type(e).__name__}", "clause": "every command appended can be read back (the operations of the store do not fail)", "case": {"config": [h.backend, h.bufsize, list(h.hc)], "history": hist}, "observed": f"{type(e).__name__}: {e}"[:200], "expected": "the operation succeeds"})
+            n_hist += 1
+            continue
         n_trans += 1
         vs = h.check(hist)
         viols.extend(vs)
